@@ -213,7 +213,7 @@ func (g *gctx) exprD(pos string, depth int) Expr {
 		yw = 9
 	}
 	d := depth + 1
-	switch g.pickW(6, yw, yw/4, 4, 2, 1, 3, 3, 3, 2, 3, 3, 1, 1) {
+	switch g.pickW(6, yw, yw/4, 4, 2, 1, 3, 3, 3, 2, 3, 4, 1, 1, 2) {
 	case 0:
 		return g.leaf()
 	case 1:
@@ -339,29 +339,34 @@ func (g *gctx) exprD(pos string, depth int) Expr {
 		switch g.pickW(4, 2, 2) {
 		case 0:
 			if l, ok := g.pickAssignable(); ok {
-				op := "="
-				p := "assign-rhs"
-				if g.chance(1, 3) {
-					op, p = "+=", "compound-rhs"
-				}
+				op, p := g.assignOp()
 				return &Assign{Op: op, Target: id(l.name), V: g.exprD(p, d)}
 			}
 			fallthrough
 		case 1:
 			if l, ok := g.pickLocal("obj"); ok {
-				op := "="
-				if g.chance(1, 4) {
-					op = "+="
-				}
-				return &Assign{Op: op, Target: &Member{O: id(l.name), Name: keyPool[g.pick(len(keyPool))]}, V: g.exprD("assign-rhs", d)}
+				op, p := g.assignOp()
+				return &Assign{Op: op, Target: &Member{O: id(l.name), Name: keyPool[g.pick(len(keyPool))]}, V: g.exprD(p, d)}
 			}
 			fallthrough
 		default:
 			if l, ok := g.pickLocal("obj"); ok {
-				return &Assign{Op: "=", Target: &Member{O: id(l.name), Computed: g.exprD("assign-key", d)}, V: g.exprD("assign-rhs", d)}
+				op, p := g.assignOp()
+				return &Assign{Op: op, Target: &Member{O: id(l.name), Computed: g.exprD("assign-key", d)}, V: g.exprD(p, d)}
 			}
 			return g.leaf()
 		}
+	case 14: // destructuring assignment with identifier / member targets
+		if pat := g.assignPattern(0); pat != nil {
+			var src Expr
+			if _, isArr := pat.(*PArr); isArr {
+				src = g.iterable(d)
+			} else {
+				src = g.exprD("destr-assign-src", d)
+			}
+			return &AssignPat{Target: pat, V: src}
+		}
+		return g.leaf()
 	case 12:
 		ops := []string{"!", "-", "void"}
 		return &Unary{Op: ops[g.pick(3)], X: g.exprD("unary", d)}
@@ -371,6 +376,76 @@ func (g *gctx) exprD(pos string, depth int) Expr {
 		}
 		return g.leaf()
 	}
+}
+
+func (g *gctx) assignOp() (op, pos string) {
+	switch g.pickW(5, 2, 1, 1, 1) {
+	case 0:
+		return "=", "assign-rhs"
+	case 1:
+		return "+=", "compound-rhs"
+	case 2:
+		return "||=", "logic-assign-rhs"
+	case 3:
+		return "&&=", "logic-assign-rhs"
+	}
+	return "??=", "logic-assign-rhs"
+}
+
+// assignTarget: an identifier or member target of a destructuring assignment (nil if nothing is assignable here).
+func (g *gctx) assignTarget() Pattern {
+	if l, ok := g.pickLocal("obj"); ok && g.chance(3, 5) {
+		if g.chance(1, 2) {
+			return &PMember{O: l.name, Name: keyPool[g.pick(len(keyPool))]}
+		}
+		return &PMember{O: l.name, Computed: g.exprD("destr-assign-key", 2)}
+	}
+	if l, ok := g.pickAssignable(); ok {
+		return &PIdent{Name: l.name}
+	}
+	if l, ok := g.pickLocal("obj"); ok {
+		return &PMember{O: l.name, Name: keyPool[g.pick(len(keyPool))]}
+	}
+	return nil
+}
+
+func (g *gctx) assignPattern(depth int) Pattern {
+	if g.assignTarget() == nil {
+		return nil
+	}
+	sub := func() Pattern {
+		if depth < 1 && g.chance(1, 4) {
+			return g.assignPattern(depth + 1)
+		}
+		return g.assignTarget()
+	}
+	if g.chance(3, 5) {
+		p := &PArr{}
+		for k := 1 + g.pick(3); k > 0; k-- {
+			el := PElem{Target: sub()}
+			if g.chance(1, 2) {
+				el.Default = g.exprD("destr-assign-default", 2)
+			}
+			p.Elems = append(p.Elems, el)
+		}
+		if g.chance(1, 4) {
+			p.Rest = g.assignTarget()
+		}
+		return p
+	}
+	p := &PObj{}
+	for k := 1 + g.pick(2); k > 0; k-- {
+		pp := PProp{Key: keyPool[g.pick(len(keyPool))]}
+		if g.chance(1, 3) {
+			pp.Computed = g.exprD("destr-key", 2)
+		}
+		pp.Target = sub()
+		if _, isArr := pp.Target.(*PArr); !isArr && g.chance(1, 2) {
+			pp.Default = g.exprD("destr-assign-default", 2)
+		}
+		p.Props = append(p.Props, pp)
+	}
+	return p
 }
 
 func (g *gctx) pickAssignable() (local, bool) {
@@ -416,7 +491,7 @@ func (g *gctx) logStmt() Stmt {
 	return &ExprS{E: c}
 }
 
-func (g *gctx) declName(kindHint string) (name, kind string) {
+func (g *gctx) declName(kindHint string, taken ...local) (name, kind string) {
 	kind = kindHint
 	if kind == "" {
 		kind = []string{"let", "let", "const", "var"}[g.pick(4)]
@@ -428,6 +503,9 @@ func (g *gctx) declName(kindHint string) (name, kind string) {
 	if len(g.scopes) > 1 && g.chance(1, 8) {
 		cur := map[string]bool{}
 		for _, l := range g.scopes[len(g.scopes)-1] {
+			cur[l.name] = true
+		}
+		for _, l := range taken {
 			cur[l.name] = true
 		}
 		var cands []local
@@ -447,7 +525,7 @@ func (g *gctx) declName(kindHint string) (name, kind string) {
 
 func (g *gctx) pattern(kind string, depth int, out *[]local) Pattern {
 	if depth >= 2 || g.chance(1, 2) {
-		n, _ := g.declName(kind)
+		n, _ := g.declName(kind, *out...)
 		*out = append(*out, local{n, "any", kind})
 		return &PIdent{Name: n}
 	}
@@ -462,7 +540,7 @@ func (g *gctx) pattern(kind string, depth int, out *[]local) Pattern {
 			p.Elems = append(p.Elems, el)
 		}
 		if g.chance(1, 4) {
-			n, _ := g.declName(kind)
+			n, _ := g.declName(kind, *out...)
 			*out = append(*out, local{n, "arr", kind})
 			p.Rest = &PIdent{Name: n}
 		}
@@ -476,7 +554,8 @@ func (g *gctx) pattern(kind string, depth int, out *[]local) Pattern {
 			pp.Computed = g.exprD("destr-key", 1)
 		}
 		pp.Target = g.pattern(kind, depth+1, out)
-		if g.chance(1, 2) {
+		// goja's parser rejects `{k: [x = d] = dflt}` (array pattern with element defaults + property default): not generated
+		if _, isArr := pp.Target.(*PArr); !isArr && g.chance(1, 2) {
 			pp.Default = g.exprD("destr-default", 1)
 		}
 		p.Props = append(p.Props, pp)
@@ -490,7 +569,7 @@ func (g *gctx) stmt() []Stmt {
 	g.budget--
 	nest := len(g.scopes)
 	deep := nest >= 5
-	w := []int{8, 8, 4, 3, 3, 4, 3, 5, 1, 1, 2, 3, 2, 2, 2}
+	w := []int{8, 7, 5, 3, 3, 4, 3, 8, 1, 1, 2, 3, 2, 2, 2}
 	if deep {
 		w[3], w[4], w[5], w[6], w[7] = 0, 0, 0, 0, 1
 	}
@@ -880,7 +959,7 @@ func GenHistory(r Rand, twoInst bool) []Op {
 	for i := 0; i < n; i++ {
 		k := "next"
 		switch x := r.Intn(20); {
-		case x < 11:
+		case x < 11 || (i == 0 && x < 18):
 		case x < 15:
 			k = "throw"
 		default:
